@@ -96,6 +96,9 @@ func newRun(e *Engine, fn *ssa.Function) *Run {
 		r.declKey("g|"+name, ghostSort(srt))
 	}
 	for _, sf := range e.cs.Specs {
+		if strings.Contains(smtPreamble, "(declare-fun "+sym(sf.Name)+" ") {
+			continue // built into the preamble (sequence constructors); the spec line only gives its type
+		}
 		var args []string
 		for _, a := range sf.Args {
 			args = append(args, specSort(a))
@@ -108,7 +111,7 @@ func newRun(e *Engine, fn *ssa.Function) *Run {
 func specSort(s string) string {
 	s = strings.TrimSpace(s)
 	switch s {
-	case "Int", "Bool", "Str", "Slice":
+	case "Int", "Bool", "Str", "Slice", "SeqStr":
 		return s
 	case "Ref", "Iface", "Ptr":
 		return "Int"
@@ -379,6 +382,17 @@ func (fr *Frame) computeAnchors() {
 		switch in := rc.in.(type) {
 		case *ssa.Call:
 			add(in, "call "+fr.r.calleeName(&in.Call))
+			// a second name keyed by the first string-literal argument, stable when other calls of
+			// the same function are inserted or removed: call fmt.Sprintf("PLUGIN_MIN_PORT=%d")#1
+			for i, a := range in.Call.Args {
+				if i > 1 {
+					break
+				}
+				if c, ok := a.(*ssa.Const); ok && c.Value != nil && c.Value.Kind() == constant.String {
+					add(in, "call "+fr.r.calleeName(&in.Call)+"("+strconv.Quote(constant.StringVal(c.Value))+")")
+					break
+				}
+			}
 		case *ssa.Go:
 			add(in, "call "+fr.r.calleeName(&in.Call))
 			add(in, "go")
